@@ -77,9 +77,10 @@ def gen_cases(rng, tier):
         l, t = rng.uniform(0, 12), rng.uniform(0, 12)
         r, b = l + rng.uniform(0.1, 11), t + rng.uniform(0.1, 11)
         cases.append(("fill_px", [0, 1, 2, w, h, 0, w, 750, 350] + list(IDENT) + [5, g(l, 256.0), g(t, 256.0), g(r, 256.0), g(b, 256.0)]))
-    for i in range(2 if tier == "quick" else 20):
+    for i in range(4 if tier == "quick" else 24):
         ops = rand_path_ops(rng, 8191 + rng.uniform(-6, 6), 10, 9, curves=False)
-        cases.append(("fill_px", [i % 2, 1, 0, 8230, 20, 8160, 8225, 750, 350] + list(IDENT) + ops))
+        # kind 0: Pixmap::fill_path, kind 1: Mask::fill_path (both are tiled above 8191)
+        cases.append(("fill_px", [i % 2, 1, (i // 2) % 2, 8230, 20, 8160, 8225, 750, 350] + list(IDENT) + ops))
     return cases
 
 
